@@ -66,6 +66,12 @@ def ev(t, env, memo=None):
         r = np.zeros_like(ev(t[1], env, memo))
     elif op == "eye":
         r = np.eye(ev(t[1], env, memo).shape[0])
+    elif op == "tr":
+        r = np.asarray(ev(t[1], env, memo)).T
+    elif op == "blk":                             # ["blk", nrows, ncols, t11, t12, ...] block matrix, row major
+        nr, nc = int(t[1]), int(t[2])
+        bl = [np.atleast_2d(ev(u, env, memo)) for u in t[3:]]
+        r = np.block([[bl[i * nc + j] for j in range(nc)] for i in range(nr)])
     elif op == "min":
         r = ev(t[1], env, memo)
         for u in t[2:]:
